@@ -13,7 +13,8 @@ pub const WEIRD_URI: &str = "urn:q\"<&>'\u{a0}";
 pub const HTML_LOCALS: &[&str] = &[
     "p", "div", "br", "BR", "Br", "img", "hr", "input", "meta", "link", "span", "SPAN", "em", "i", "pre", "PRE", "script",
     "SCRIPT", "Script", "style", "STYLE", "title", "textarea", "table", "td", "ul", "li", "html", "head", "body", "h1",
-    "basefont", "frame", "param", "keygen", "svg", "math", "custom", "x-y", "\u{212a}bd", "kbd", "a", "b",
+    "basefont", "frame", "param", "keygen", "svg", "math", "custom", "x-y", "\u{212a}bd", "kbd", "a", "b", "lin\u{212a}", "LIN\u{212a}",
+    "\u{212a}eygen", "trac\u{212a}", "track",
 ];
 const MATHML_LOCALS: &[&str] = &["math", "mi", "mo", "mrow", "annotation-xml", "script", "br"];
 const SVG_LOCALS: &[&str] = &["svg", "g", "circle", "foreignObject", "script", "style", "title", "a", "br"];
